@@ -429,3 +429,283 @@ Section ReaderContractC.
     exists m. split; [reflexivity|]. congruence.
   Qed.
 End ReaderContractC.
+
+(* ================= Part D: BufferReader.Skip ================= *)
+Section ReaderContractD.
+  Variable At : bytes -> N -> rstate -> Prop.
+
+  Hypothesis RC_next_ok : forall S c st n, At S c st -> c + n <= len S ->
+    exists st', r_next st (Z.of_N n) = (st', OBytes (take n (drop c S))) /\ At S (c + n) st' /\
+                r_readlen st' = r_readlen st + n.
+  Hypothesis RC_next_short : forall S c st n, At S c st -> len S < c + n ->
+    exists st' e, r_next st (Z.of_N n) = (st', OErr e) /\ At S c st' /\ r_readlen st' = r_readlen st /\
+                  (0 <= e < 99)%Z.
+  Hypothesis RC_skip_ok : forall S c st n, At S c st -> c + n <= len S ->
+    exists st', r_skip st (Z.of_N n) = (st', OUnit) /\ At S (c + n) st' /\
+                r_readlen st' = r_readlen st + n.
+  Hypothesis RC_skip_short : forall S c st n, At S c st -> len S < c + n ->
+    exists st' e, r_skip st (Z.of_N n) = (st', OErr e) /\ At S c st' /\ r_readlen st' = r_readlen st /\
+                  (0 <= e < 99)%Z.
+  Hypothesis RC_avail : forall S c st, At S c st ->
+    (length (drop c S) <= length (win st) + length (sdata (src st)))%nat.
+
+  Section StreamD.
+    Variable S : bytes.
+    Hypothesis S_wf : wf S.
+    Variables (c0 rl0 : N).
+
+    Notation br_rep := (br_rep At S c0 rl0).
+    Notation br_next_ok := (br_next_ok At RC_next_ok S c0 rl0).
+    Notation br_skipn_ok := (br_skipn_ok At RC_skip_ok S c0 rl0).
+    Notation br_rep_wf := (br_rep_wf At S S_wf c0 rl0).
+    Notation bsimc := (ctsim rstate br_rep wrapped_src).
+
+    Lemma br_next_fail_c st r n : br_rep st r -> len r < n ->
+      exists st' e, br_next st n = (st', Err e) /\ wrapped_src e.
+    Proof.
+      intros [c (A & Hc & -> & Hl)] Hn. rewrite len_drop in Hn.
+      destruct (RC_next_short S c st n A ltac:(slia)) as [st' [e (E & _ & _ & He)]].
+      exists st', (e_wrap e). unfold br_next. rewrite E. split; [reflexivity|].
+      exists e. split; [reflexivity|exact He].
+    Qed.
+    Lemma br_skipn_fail_c st r n : br_rep st r -> len r < n ->
+      exists st' e, br_skipn st (Z.of_N n) = (st', Err e) /\ wrapped_src e.
+    Proof.
+      intros [c (A & Hc & -> & Hl)] Hn. rewrite len_drop in Hn.
+      destruct (RC_skip_short S c st n A ltac:(slia)) as [st' [e (E & _ & _ & He)]].
+      exists st', (e_wrap e). unfold br_skipn. destruct (Z.ltb_spec (Z.of_N n) 0); [slia|]. rewrite E.
+      split; [reflexivity|]. exists e. split; [reflexivity|exact He].
+    Qed.
+
+    Lemma br_next_fail_sim st r n (k : rstate -> bytes -> sres rstate unit) r' : br_rep st r -> len r < n ->
+      bsimc (sbind (br_next st n) k) r' (Err E_TRUNC).
+    Proof.
+      intros HR H. destruct (br_next_fail_c st r n HR H) as [st' [e [E He]]]. rewrite E. cbn [sbind ctsim].
+      exists st', e. split; [reflexivity|apply errok_src, He].
+    Qed.
+
+    Lemma br_skipn_exact_c st r w h : br_rep st r ->
+      bsimc (br_skipn st (Z.of_N w)) r (if hasn r w then Ok (w, h) else Err E_TRUNC).
+    Proof.
+      intros HR. rewrite hasn_le. destruct (N.leb_spec w (len r)) as [H|H].
+      - destruct (br_skipn_ok st r w HR H) as [st' [E HR']]. rewrite E. cbn. exists st'. auto.
+      - destruct (br_skipn_fail_c st r w HR H) as [st' [e [E He]]]. rewrite E. cbn [ctsim].
+        exists st', e. split; [reflexivity|apply errok_src, He].
+    Qed.
+
+    Variable fu : nat.
+    Notation P := (P fu).
+
+    Lemma br_skipstr_csim st r : br_rep st r -> P r -> bsimc (br_skipstr st) r (gstring r).
+    Proof.
+      intros HR HP. unfold br_skipstr, br_read_u32, gstring. rewrite hasn_le.
+      destruct (N.leb_spec 4 (len r)) as [H4|H4].
+      2:{ destruct (br_next_fail_c st r 4 HR H4) as [st' [e [E He]]]. rewrite E. cbn [sbind ctsim].
+          exists st', e. split; [reflexivity|apply errok_src, He]. }
+      destruct (br_next_ok st r 4 HR H4) as [st1 [E1 HR1]]. rewrite E1. cbn [sbind].
+      rewrite be_u32_take by exact H4. cbn [sbind].
+      pose proof (unbe4_lt r (br_rep_wf _ _ HR)) as Hu. set (u := unbe (take 4 r)) in *.
+      destruct (N.leb_spec two31 u) as [Hneg|Hpos].
+      { rewrite (br_skipn_neg st1 (i32 u)).
+        - cbn [ctsim]. exists st1, e_neg_size. split; [reflexivity|apply errok_own; reflexivity].
+        - apply Z.ltb_lt. rewrite i32_neg by exact Hu. apply N.leb_le. exact Hneg. }
+      rewrite i32_small by exact Hpos.
+      pose proof (br_skipn_exact_c st1 (drop 4 r) u O HR1) as X. unfold ctsim in *.
+      destruct (hasn (drop 4 r) u).
+      - destruct X as [st2 [E2 HR2]]. exists st2. split; [exact E2|]. rewrite drop_plus in HR2. exact HR2.
+      - exact X.
+    Qed.
+
+    Section StructLoop.
+      Variables (fld : N -> rstate -> sres rstate unit) (eR : N -> bytes -> pres).
+      Hypothesis HF : forall ft st r, ft < 256 -> br_rep st r -> P r -> bsimc (fld ft st) r (eR ft r).
+
+      Lemma br_struct_loop_csim : forall fuel1 fuel2 st r,
+        br_rep st r -> P r -> (length r < fuel1)%nat -> (length r < fuel2)%nat ->
+        bsimc (br_struct_loop fld fuel1 st) r (gfields fuel2 eR r).
+      Proof.
+        induction fuel1 as [|f IH]; intros fuel2 st r HR HP Hf1 Hf2; [slia|].
+        destruct fuel2 as [|f2]; [slia|]. cbn [br_struct_loop gfields]. unfold br_field_begin.
+        destruct r as [|ft r1].
+        { destruct (br_next_fail_c st [] 1 HR ltac:(change (len (@nil N)) with 0; slia)) as [st' [e [E He]]].
+          rewrite E. cbn [sbind ctsim]. exists st', e. split; [reflexivity|apply errok_src, He]. }
+        pose proof (br_rep_wf _ _ HR) as W. apply wf_cons in W as [Hft W1].
+        destruct (br_next_ok st (ft :: r1) 1 HR ltac:(rewrite len_cons; slia)) as [st1 [E1 HR1]].
+        rewrite E1. cbn [sbind]. change (take 1 (ft :: r1)) with [ft]. change (drop 1 (ft :: r1)) with r1 in HR1.
+        cbn [index N.to_nat nth_error].
+        destruct (is_ty_ok ft Hft) as (_&_&_&_&_&Hstop). rewrite Hstop.
+        destruct (ft =? T_STOP) eqn:Est.
+        { cbn [sbind]. rewrite Hstop. cbn. exists st1. auto. }
+        assert (HP1 : P r1) by (apply (P_drop fu (ft :: r1) 1 HP)).
+        rewrite hasn_le. destruct (N.leb_spec 2 (len r1)) as [H2|H2].
+        2:{ destruct (br_next_fail_c st1 r1 2 HR1 H2) as [st' [e [E He]]]. rewrite E. cbn [sbind ctsim].
+            exists st', e. split; [reflexivity|apply errok_src, He]. }
+        destruct (br_next_ok st1 r1 2 HR1 H2) as [st2 [E2 HR2]]. rewrite E2. cbn [sbind].
+        destruct (be_u16_take r1 H2) as [x Ex]. rewrite Ex. cbn [bind sbind]. rewrite Hstop.
+        specialize (HF ft st2 (drop 2 r1) Hft HR2 (P_drop fu r1 2 HP1)). unfold ctsim in HF.
+        destruct (eR ft (drop 2 r1)) as [[n h]|er| |]; try contradiction; cbn [bind].
+        - destruct HF as [st3 [E3 HR3]]. rewrite E3. cbn [sbind].
+          assert (Hl : (length (drop n (drop 2 r1)) < length (ft :: r1))%nat).
+          { unfold drop. rewrite !skipn_length. cbn [length]. slia. }
+          specialize (IH f2 st3 (drop n (drop 2 r1)) HR3 (P_drop fu _ n (P_drop fu r1 2 HP1)) ltac:(slia) ltac:(slia)).
+          unfold ctsim in *.
+          destruct (gfields f2 eR (drop n (drop 2 r1))) as [[m hm]|er| |]; try contradiction; cbn [bind].
+          + destruct IH as [st4 [E4 HR4]]. exists st4. split; [exact E4|].
+            rewrite !drop_plus in HR4. replace (3 + n + m) with (1 + (2 + (n + m))) by slia.
+            rewrite drop_cons_succ. exact HR4.
+          + exact IH.
+        - destruct HF as [st3 [e [E3 He]]]. rewrite E3. cbn [sbind]. exists st3, e. auto.
+      Qed.
+    End StructLoop.
+
+    Section Member.
+      Variables (self : rstate -> N -> sres rstate unit) (rec : N -> bytes -> pres).
+      Hypothesis HS : forall t st r, t < 256 -> br_rep st r -> P r -> bsimc (self st t) r (rec t r).
+
+      Lemma br_kv_csim t st r : t < 256 -> br_rep st r -> P r ->
+        bsimc (br_kv self (Z.of_N (fixed_width t)) t st) r (member true true rec t r).
+      Proof.
+        intros Ht HR HP. unfold br_kv, member. rewrite fixed_width_pos.
+        destruct (is_ty_ok t Ht) as (Hs&_). rewrite Hs. cbn [andb].
+        destruct (is_fixed t) eqn:F; cbn [orb].
+        - unfold is_fixed in F. destruct (kind_of t) eqn:K; try discriminate.
+          rewrite (leaf_fixed t width K). unfold fixed_width. rewrite K. apply br_skipn_exact_c, HR.
+        - destruct (is_str t) eqn:Sx.
+          + unfold is_str in Sx. destruct (kind_of t) eqn:K; try discriminate.
+            rewrite (leaf_str t K). apply br_skipstr_csim; assumption.
+          + apply HS; assumption.
+      Qed.
+
+      Lemma br_lelem_csim t st r : t < 256 -> is_fixed t = false -> br_rep st r -> P r ->
+        bsimc (br_lelem self t st) r (member true true rec t r).
+      Proof.
+        intros Ht F HR HP. unfold br_lelem, member. rewrite F.
+        destruct (is_ty_ok t Ht) as (Hs&_). rewrite Hs. cbn [andb orb].
+        destruct (is_str t) eqn:Sx.
+        - unfold is_str in Sx. destruct (kind_of t) eqn:K; try discriminate.
+          rewrite (leaf_str t K). apply br_skipstr_csim; assumption.
+        - apply HS; assumption.
+      Qed.
+
+      Lemma br_field_csim ft st r : ft < 256 -> br_rep st r -> P r ->
+        bsimc (br_field self ft st) r (member true false rec ft r).
+      Proof.
+        intros Ht HR HP. unfold br_field, member. rewrite (tts_ok SBufferReader ft Ht). unfold sret. cbn [sbind].
+        rewrite fixed_width_pos. cbn [andb orb]. rewrite Bool.orb_false_r.
+        destruct (is_fixed ft) eqn:F.
+        - unfold is_fixed in F. destruct (kind_of ft) eqn:K; try discriminate.
+          rewrite (leaf_fixed ft width K). unfold fixed_width. rewrite K. apply br_skipn_exact_c, HR.
+        - apply HS; assumption.
+      Qed.
+    End Member.
+
+    Lemma brskip_csim : forall d st r t, br_rep st r -> t < 256 -> P r ->
+      bsimc (brskip d fu st t) r (rc inl_br d t r).
+    Proof.
+      induction d as [|d IH]; intros st r t HR Ht HP.
+      { cbn [brskip rc ctsim]. exists st, e_depth. split; [reflexivity|apply errok_own, allowed_depth0]. }
+      assert (Hlen : (length r < fu)%nat) by apply HP.
+      assert (IH' : forall t st r, t < 256 -> br_rep st r -> P r -> bsimc (brskip d fu st t) r (rc inl_br d t r))
+        by (intros; apply IH; assumption).
+      rewrite rc_S. cbn [brskip]. rewrite (tts_ok SBufferReader t Ht). unfold sret at 1. cbn [sbind].
+      rewrite fixed_width_pos.
+      destruct (is_ty_ok t Ht) as (Hs&Hm&Hl&_&Hst&_). rewrite Hs, Hm, Hl, Hst. clear Hs Hm Hl Hst.
+      unfold lvl, is_fixed, is_str, is_map, is_list, is_struct, fixed_width.
+      destruct (kind_of t) eqn:K; cbv beta iota.
+      - apply br_skipn_exact_c; exact HR.
+      - apply br_skipstr_csim; assumption.
+      - (* struct *)
+        apply ctsim_top. apply br_struct_loop_csim; try assumption; [|slia].
+        intros ft st0 r0 Hft HR0 HP0. unfold rp_es. cbn [inl_br in_struct_fixed in_struct_str].
+        apply br_field_csim; assumption.
+      - (* map *)
+        unfold br_map_begin.
+        assert (Hfail : len r < 6 -> forall (y : rstate -> bytes -> sres rstate (N * N * N)) (z : rstate -> N * N * N -> sres rstate unit),
+                  bsimc (sbind (sbind (br_next st 6) y) z) r (Err E_TRUNC)).
+        { intros H6 y z. destruct (br_next_fail_c st r 6 HR H6) as [st' [e [E He]]]. rewrite E. cbn [sbind ctsim].
+          exists st', e. split; [reflexivity|apply errok_src, He]. }
+        destruct r as [|kt [|vt r2]]; try (apply Hfail; rewrite ?len_cons; change (len (@nil N)) with 0; slia).
+        rewrite hasn_le. destruct (N.leb_spec 4 (len r2)) as [H4|H4].
+        2:{ apply Hfail. rewrite !len_cons. slia. }
+        clear Hfail.
+        pose proof (br_rep_wf _ _ HR) as W. apply wf_cons in W as [Hkt W]. apply wf_cons in W as [Hvt W2].
+        destruct (br_next_ok st (kt :: vt :: r2) 6 HR ltac:(rewrite !len_cons; slia)) as [st1 [E1 HR1]].
+        rewrite E1. cbn [sbind]. rewrite (hdr_map kt vt r2 H4). cbn [sbind]. cbv zeta.
+        change (drop 6 (kt :: vt :: r2)) with (drop 4 r2) in HR1.
+        assert (HP1 : P (drop 4 r2)) by (apply (P_drop fu (kt :: vt :: r2) 6 HP)).
+        pose proof (unbe4_lt r2 W2) as Hu. set (u := unbe (take 4 r2)) in *.
+        rewrite i32_neg by exact Hu.
+        destruct (N.leb_spec two31 u) as [Hneg|Hpos].
+        { cbn [ctsim]. exists st1, e_neg_size. split; [reflexivity|apply errok_own; reflexivity]. }
+        rewrite (tts_ok SBufferReader kt Hkt), (tts_ok SBufferReader vt Hvt). unfold sret. cbn [sbind].
+        rewrite !fixed_width_pos.
+        unfold rp_em, rp_m. cbn [inl_br in_map_fixed in_map_str]. rewrite Bool.orb_true_r.
+        apply (ctsim_shift rstate br_rep wrapped_src _ (kt :: vt :: r2) 6). change (drop 6 (kt :: vt :: r2)) with (drop 4 r2).
+        destruct (is_fixed kt && is_fixed vt) eqn:FF.
+        + apply andb_true_iff in FF as [Fk Fv]. unfold is_fixed in Fk, Fv.
+          destruct (kind_of kt) as [kw| | | | |] eqn:Kk; try discriminate.
+          destruct (kind_of vt) as [vw| | | | |] eqn:Kv; try discriminate.
+          unfold fixed_width. rewrite Kk, Kv.
+          rewrite (gelems_ext _ _ (fixedp (kw + vw))).
+          2:{ intros r. rewrite <- gpair_fixed. apply gpair_ext; apply member_fixed_ext'; assumption. }
+          pose proof (kind_fixed_pos _ _ Kk). pose proof (kind_fixed_pos _ _ Kv).
+          rewrite gelems_fixed; [|slia|apply ldrop2].
+          rewrite <- N2Z.inj_add, <- N2Z.inj_mul.
+          apply br_skipn_exact_c. exact HR1.
+        + rewrite br_loop_eq.
+          apply (t_loop_csim rstate br_rep wrapped_src fu); try assumption.
+          * apply pair_csim; intros s0 r0 HR0 HP0; apply br_kv_csim; assumption.
+          * apply gpair_good; apply member_good, rc_good.
+          * apply ldrop2.
+      - (* list / set *)
+        unfold br_list_begin.
+        assert (Hfail : len r < 5 -> forall (y : rstate -> bytes -> sres rstate (N * N)) (z : rstate -> N * N -> sres rstate unit), bsimc (sbind (sbind (br_next st 5) y) z) r (Err E_TRUNC)).
+        { intros H5 y z. destruct (br_next_fail_c st r 5 HR H5) as [st' [e [E He]]]. rewrite E. cbn [sbind ctsim].
+          exists st', e. split; [reflexivity|apply errok_src, He]. }
+        destruct r as [|et r1]; try (apply Hfail; change (len (@nil N)) with 0; slia).
+        rewrite hasn_le. destruct (N.leb_spec 4 (len r1)) as [H4|H4].
+        2:{ apply Hfail. rewrite !len_cons. slia. }
+        clear Hfail.
+        pose proof (br_rep_wf _ _ HR) as W. apply wf_cons in W as [Het W1].
+        destruct (br_next_ok st (et :: r1) 5 HR ltac:(rewrite !len_cons; slia)) as [st1 [E1 HR1]].
+        rewrite E1. cbn [sbind]. rewrite (hdr_list et r1 H4). cbn [sbind]. cbv zeta.
+        change (drop 5 (et :: r1)) with (drop 4 r1) in HR1.
+        assert (HP1 : P (drop 4 r1)) by (apply (P_drop fu (et :: r1) 5 HP)).
+        pose proof (unbe4_lt r1 W1) as Hu. set (u := unbe (take 4 r1)) in *.
+        rewrite i32_neg by exact Hu.
+        destruct (N.leb_spec two31 u) as [Hneg|Hpos].
+        { cbn [ctsim]. exists st1, e_neg_size. split; [reflexivity|apply errok_own; reflexivity]. }
+        rewrite (tts_ok SBufferReader et Het). unfold sret. cbn [sbind].
+        rewrite !fixed_width_pos.
+        unfold rp_el. cbn [inl_br in_list_str].
+        apply (ctsim_shift rstate br_rep wrapped_src _ (et :: r1) 5). change (drop 5 (et :: r1)) with (drop 4 r1).
+        destruct (is_fixed et) eqn:Fe.
+        + unfold is_fixed in Fe. destruct (kind_of et) as [w| | | | |] eqn:Ke; try discriminate.
+          unfold fixed_width. rewrite Ke. pose proof (kind_fixed_pos _ _ Ke).
+          rewrite <- N2Z.inj_mul.
+          rewrite (gelems_ext _ _ (fixedp w)) by (apply member_fixed_ext'; assumption).
+          rewrite gelems_fixed; [|slia|apply ldrop1].
+          apply br_skipn_exact_c. exact HR1.
+        + rewrite br_loop_eq.
+          apply (t_loop_csim rstate br_rep wrapped_src fu); try assumption.
+          * intros s0 r0 HR0 HP0; apply br_lelem_csim; assumption.
+          * apply member_good, rc_good.
+          * apply ldrop1.
+      - cbn [ctsim]. exists st, e_unknown_type. split; [reflexivity|apply errok_own, allowed_unknown, K].
+    Qed.
+  End StreamD.
+
+  Theorem brskip_err_cause S c st t d st' e :
+    wf S -> At S c st -> c <= len S -> t < 256 ->
+    br_skip_depth st t d = (st', Err e) ->
+    exists m, rc inl_br d t (drop c S) = Err m /\ errok wrapped_src e m.
+  Proof.
+    intros W A Hc Ht E. unfold br_skip_depth in E.
+    assert (HR : br_rep At S c (r_readlen st) st (drop c S)).
+    { exists c. repeat split; try assumption; lia. }
+    assert (HP : P (r_fuel st) (drop c S)).
+    { unfold P, r_fuel. pose proof (RC_avail S c st A). lia. }
+    pose proof (brskip_csim S W c (r_readlen st) (r_fuel st) d st (drop c S) t HR Ht HP) as T.
+    eapply ctsim_err; [exact T|exact E].
+  Qed.
+End ReaderContractD.
